@@ -421,14 +421,14 @@ var queryTypes = []qtype{
 	{"Inner", []string{`["x"]`, `["y",{"z":["l1"]}]`, `[{"z":["l2","l3"]}]`, `["x","y","z"]`}},
 	{"Leaf", []string{`["l1"]`, `["l2","l4"]`, `["l3"]`}},
 	{"Tagged", []string{`["name"]`, `["opt","f"]`, `["a<b&c","str"]`, `["p","name"]`}},
-	{"WithQ", []string{`["id"]`, `["id",{"q":["k1"]}]`, `[{"q":["k2","k3"]},{"pq":["k1"]}]`, `[{"sub":["x"]},"s"]`, `[{"l":["l1"]},{"m":["l2"]}]`, `["i","id"]`, `[{"sub":[{"z":["l1"]}]}]`}},
+	{"WithQ", []string{`["q","id"]`, `["pq"]`, `["q","pq","s"]`, `["id"]`, `["id",{"q":["k1"]}]`, `[{"q":["k2","k3"]},{"pq":["k1"]}]`, `[{"sub":["x"]},"s"]`, `[{"l":["l1"]},{"m":["l2"]}]`, `["i","id"]`, `[{"sub":[{"z":["l1"]}]}]`}},
 	{"Recursive", []string{`["v"]`, `["v",{"next":["v"]}]`, `[{"kids":["v"]}]`, `[{"next":[{"next":["v"]}]}]`}},
 	{"Embedded", []string{`["ID"]`, `["own","Name"]`, `["Extra"]`}},
 	{"Big", []string{`["F00","F01"]`, `["eleven",{"F13":["A"]}]`, `[{"F14":["B","C"]},"F19"]`, `["F15","F16"]`}},
 	{"SliceSmall", []string{`["A"]`, `["B"]`}},
 	{"MapStrSmall", []string{`["A","C"]`, `["B"]`}},
 	{"PtrSmall", []string{`["A"]`, `["C"]`}},
-	{"WithCB", []string{`["a","z"]`, `["c","a"]`, `["m"]`}},
+	{"WithCB", []string{`["a","z"]`, `["c","a"]`, `["m"]`, `[{"c":["x"]},"a"]`, `["c"]`}},
 	{"G0003", []string{`["F0"]`, `["F1"]`}},
 }
 
